@@ -375,6 +375,7 @@ def budget_for(name, tier):
 
 
 SEED = [0]
+ISOLATE = os.environ.get("PYVC_ISOLATE", "1") == "1"
 
 
 def _solve(args):
@@ -404,6 +405,8 @@ def _solve(args):
         s_.set("smt.mbqi", False)
         s_.set("rlimit", rl)
         s_.set("timeout", timeout_ms)
+        if seed:
+            s_.set("random_seed", seed)
         for a in s0.assertions():
             if z3.is_implies(a) and z3.is_const(a.arg(0)) and a.arg(0).decl().name().startswith("__g") and a.arg(0).decl().name() != k:
                 continue
@@ -417,7 +420,11 @@ def _solve(args):
     for n_k, k in enumerate(slots if slots is not None else [None]):
         t0 = time.time()
         try:
-            if dirty:                 # a check that did not end in `unsat` leaves clutter behind: start clean
+            if ISOLATE and k is not None and len(slots) > 1:
+                # every goal in a solver of its own (same hypotheses, parsed once per goal): the ground terms of the other goals of
+                # the group would otherwise take part in E-matching and make resource use depend on the grouping
+                ctx, s = isolated(k, rlimits[n_k] if rlimits else rlimit)
+            elif dirty:                 # a check that did not end in `unsat` leaves clutter behind: start clean
                 ctx, s = fresh_solver()
                 dirty = False
             if rlimits:
@@ -491,7 +498,7 @@ def _model_text(s, limit=6000):
     return txt[:limit]
 
 
-GROUP_MAX = 10
+GROUP_MAX = int(os.environ.get("PYVC_GROUP", "10"))
 
 
 def discharge(vcs, covers, tier="quick", procs=None, single=False):
@@ -576,8 +583,11 @@ def discharge(vcs, covers, tier="quick", procs=None, single=False):
     # behaviour inside a group depends on the other goals of the group and on what ran before in that process
     if not getattr(discharge, "_retrying", False):
         def exhausted(vc):
-            return getattr(vc, "status", None) == "undecided" or \
-                (getattr(vc, "status", None) == "failed" and "no proof within" in (vc.reason or ""))
+            # also an `incomplete quantifiers` answer for an obligation that was proved on the unchanged tree: E-matching saturation
+            # depends on the search order; a real violation gives the same answer under every seed
+            st_ = getattr(vc, "status", None)
+            return st_ == "undecided" or (st_ == "failed" and "no proof within" in (vc.reason or "")) or \
+                (st_ == "failed" and getattr(vc, "in_baseline", False) and "incomplete" in (vc.reason or ""))
         discharge._retrying = True
         try:
             for seed in (0, 7, 23):           # alone, then alone with two other solver seeds: a proof that exists is found by one of them
